@@ -35,7 +35,7 @@ ASSUMPTIONS = [
     "serializer alphabet of 4 behaviours; values from a pool of 5",
 ]
 
-SER = ["id", "wrap", "str", "raise", "for_types"]
+SER = ["id", "wrap", "str", "raise", "for_types", "raise-BaseException-only"]
 KINDS = ["message", "start", "success", "failed", "write+serializer", "write",
          "write+serializer, type field missing", "write+serializer, type field wrong",
          "deprecated MessageType()(...).write(action=explicit action)", "deprecated MessageType()(...).write(logger)"]
@@ -48,6 +48,10 @@ class Obj(object):
 
 class SerBoom(Exception):
     pass
+
+
+class SerBaseBoom(BaseException):
+    """a failure class outside the Exception hierarchy (like CancelledError, GeneratorExit, SystemExit)"""
 
 
 class AppError(Exception):
@@ -186,10 +190,10 @@ def units(tier):
     out = [["thr", 1 if tier == "quick" else 2, k] for k in range(THR_SHARDS)]
     out.append(["history", 3 if tier == "quick" else 4])
     for n in (1, 2, 3) if tier == "quick" else (1, 2, 3, 4):
-        for sers in itertools.product(range(5), repeat=n):
-            if n >= 3 and sers.count(4) > 1:
+        for sers in itertools.product(range(6), repeat=n):
+            if n >= 3 and (sers.count(4) > 1 or sers.count(5) > 1):
                 continue
-            if n == 4 and sers.count(3) > 2:
+            if n == 4 and sers.count(3) + sers.count(5) > 2:
                 continue
             out.append(list(sers))
     return out
@@ -213,7 +217,7 @@ def cases(unit, tier):
                     for parent in (0, 1):
                         if kind == 5 and (missing is not None or any(sers)):
                             continue  # write(dict) without serializer: definition irrelevant
-                        if kind in (6, 7) and (missing is not None or any(s_ == 3 for s_ in sers)):
+                        if kind in (6, 7) and (missing is not None or any(s_ in (3, 5) for s_ in sers)):
                             continue
                         if kind in (8, 9) and (glob or extra):
                             continue
@@ -249,6 +253,8 @@ def run_case(case):
                 return ["ser", v]
             if s == 2:
                 return str(v)
+            if s == 5:
+                raise SerBaseBoom("field %d" % i)
             raise SerBoom("field %d" % i)
 
         return f
@@ -269,7 +275,7 @@ def run_case(case):
         given["extra"] = vals[3] if n < 4 else 1
     snapshot = copy.deepcopy({k: v for k, v in given.items() if not isinstance(v, Obj)})
     identities = dict(given)
-    expect_fail = ((missing is not None or any(s == 3 for s in sers)) and kind in (0, 1, 2, 4, 8, 9)) or kind == 6
+    expect_fail = ((missing is not None or any(s in (3, 5) for s in sers)) and kind in (0, 1, 2, 4, 8, 9)) or kind == 6
 
     def go():
         seen = []
@@ -356,7 +362,7 @@ def run_case(case):
     new = seen[n_before:n_after] if n_after is not None else seen[n_before:]
     new = [m for m in new if m.get("action_type") != "c13:parent"]
     # for kinds start/success the action also emits its other message(s); isolate what is under test
-    start_bad = kind in (2, 3) and any(s == 3 for s in sers)
+    start_bad = kind in (2, 3) and any(s in (3, 5) for s in sers)
     if start_bad:
         # the (valid-valued) start message itself cannot be serialized by a raising serializer:
         # this case only re-tests the start path; skip the success-specific oracle
